@@ -122,6 +122,28 @@ class C19(PropBase):
         ops.append({'op': 'get_ll_opts'})
         return {'ops': ops}
 
+    def enumerate(self, tier):
+        """ALL sequences of two setter calls (three for a reduced alphabet in the thorough tier) where each call gives one argument a value of
+        every class {0, 1, max, max+1, -1, 'x', 1.5, True} or no argument at all; non-default initial kernel state so that kept fields show"""
+        import itertools
+        setters = {'set_opts': OPTS_FIELDS + ['tx_stmin'], 'set_fc_opts': ['bs', 'stmin', 'wftmax'], 'set_ll_opts': ['mtu', 'tx_dl', 'tx_flags']}
+        calls = []
+        for which, names in setters.items():
+            calls.append({'op': which, 'args': {}})
+            for n in names:
+                for v in (0, 1, MAXV[n], MAXV[n] + 1, -1, 'x', 1.5, True):
+                    calls.append({'op': which, 'args': {n: v}})
+        init = {'flags': 0x2A5, 'ftt': 50000, 'ext': 0x11, 'txpad': 0x22, 'rxpad': 0x33, 'rxext': 0x44, 'bs': 5, 'stmin': 6, 'wft': 7,
+                'mtu': 72, 'txdl': 12, 'txflags': 9, 'txstmin': 123456}
+        tail = [{'op': 'get_opts'}, {'op': 'get_fc_opts'}, {'op': 'get_ll_opts'}]
+        for n in (1, 2):
+            for seq in itertools.product(calls, repeat=n):
+                yield {'ops': [{'op': 'new', 'init': dict(init)}] + [dict(c, args=dict(c['args'])) for c in seq] + [dict(t) for t in tail]}
+        if tier != 'quick':
+            small = [c for c in calls if not c['args'] or list(c['args'].values())[0] in (0, MAXV[list(c['args'])[0]], MAXV[list(c['args'])[0]] + 1)]
+            for seq in itertools.product(small, repeat=3):
+                yield {'ops': [{'op': 'new', 'init': dict(init)}] + [dict(c, args=dict(c['args'])) for c in seq] + [dict(t) for t in tail]}
+
     def run_impl(self, sc):
         import sockrun
         r = sockrun.SockRunner()
